@@ -237,7 +237,9 @@ impl Script {
         context
             .global_declaration_instantiation(&codeblock)
             .inspect_err(|_| {
-                context.vm.pop_frame();
+                if let Some(frame) = context.vm.pop_frame() {
+                    context.vm.stack.truncate_to_frame(&frame);
+                }
             })?;
 
         Ok(())
